@@ -94,6 +94,64 @@ def _read_size(tree: ast.Module) -> int:
     raise Unrecognised("tcp_io: reader.read(<int>) not found")
 
 
+# ---- start-up sequences (C13): the order in which run_forever / setup create what the replayed
+# handlers use, and where they subscribe (subscribing replays the backlog through the handler)
+RES = {"state_producer": 1, "state_consumer": 2, "ticker": 3, "new_wakeup": 4, "time_marks": 5}
+
+
+def _start_events(fn: ast.AST, inline_super=None) -> list:
+    """recognised statements:  self.<x> = ... | self.<x>: T = ... | await self.state_consumer.subscribe(...) |
+    await super().<same name>(...) | self._mark_time(...) ; anything else fails"""
+    out = []
+    for st in fn.body:
+        if isinstance(st, ast.Expr) and isinstance(st.value, ast.Constant) and isinstance(st.value.value, str):
+            continue  # docstring
+        tgt = None
+        if isinstance(st, ast.Assign) and len(st.targets) == 1:
+            tgt = st.targets[0]
+        elif isinstance(st, ast.AnnAssign):
+            tgt = st.target
+        if tgt is not None:
+            if isinstance(tgt, ast.Attribute) and isinstance(tgt.value, ast.Name) and tgt.value.id == "self" and tgt.attr in RES:
+                out.append(("create", RES[tgt.attr]))
+                continue
+            raise Unrecognised(f"{fn.name}: unexpected assignment {ast.dump(tgt)[:80]}")
+        if isinstance(st, ast.Expr):
+            v = st.value
+            if isinstance(v, ast.Await):
+                call = v.value
+                if (isinstance(call, ast.Call) and isinstance(call.func, ast.Attribute) and call.func.attr == "subscribe"
+                        and isinstance(call.func.value, ast.Attribute) and call.func.value.attr == "state_consumer"):
+                    out.append(("replay",))
+                    continue
+                if (isinstance(call, ast.Call) and isinstance(call.func, ast.Attribute) and call.func.attr == fn.name
+                        and isinstance(call.func.value, ast.Call) and isinstance(call.func.value.func, ast.Name)
+                        and call.func.value.func.id == "super"):
+                    if inline_super is None:
+                        raise Unrecognised(f"{fn.name}: super() call but no base sequence")
+                    out.extend(inline_super)
+                    continue
+            if (isinstance(v, ast.Call) and isinstance(v.func, ast.Attribute) and v.func.attr == "_mark_time"):
+                out.append(("create", RES["time_marks"]))
+                continue
+        raise Unrecognised(f"{fn.name}: unexpected statement {ast.dump(st)[:100]}")
+    return out
+
+
+def _startup(src: Path) -> dict:
+    comp = ast.parse((src / "core/components/component.py").read_text())
+    base = ast.parse((src / "core/management/schedulers/base.py").read_text())
+    master = ast.parse((src / "core/management/schedulers/master.py").read_text())
+    c = _start_events(_func(comp, "run_forever", "BaseComponent"))
+    b = _start_events(_func(base, "setup", "BaseScheduler"))
+    m = _start_events(_func(master, "setup", "MasterScheduler"), inline_super=b)
+    return dict(component=c, scheduler=b, master=m)
+
+
+def coq_start(evs) -> str:
+    return "[" + "; ".join(f"SCreate {e[1]}%positive" if e[0] == "create" else "SReplay" for e in evs) + "]"
+
+
 def coq_string(s: str) -> str:
     if any(ord(c) < 32 or ord(c) > 126 for c in s):
         raise Unrecognised(f"non printable constant {s!r}")
@@ -110,7 +168,7 @@ def extract() -> dict:
     tcp = ast.parse((SRC / "adapters/tcp.py").read_text())
     tcpio = ast.parse((SRC / "adapters/io/tcp_io.py").read_text())
     return dict(in_prefix=ipre, in_suffix=isuf, out_prefix=opre, out_suffix=osuf, pseudo=pseudo,
-                unknown_reply=_unknown_reply(tcp), read_size=_read_size(tcpio))
+                unknown_reply=_unknown_reply(tcp), read_size=_read_size(tcpio), startup=_startup(SRC))
 
 
 def render(c: dict) -> str:
@@ -125,6 +183,13 @@ Definition out_suffix : list ascii := list_ascii_of_string {coq_string(c['out_su
 Definition pseudo_components : list (list ascii) := [{ps}].
 Definition unknown_reply : list ascii := list_ascii_of_string {coq_string(c['unknown_reply'])}.
 Definition tcp_read_size : Z := {c['read_size']}%Z.
+
+(* start-up sequences, in source order: what run_forever / setup create (1 state_producer,
+   2 state_consumer, 3 ticker, 4 new_wakeup, 5 time marks) and where they subscribe *)
+Inductive start_step := SCreate (r : positive) | SReplay.
+Definition component_start : list start_step := {coq_start(c['startup']['component'])}.
+Definition scheduler_start : list start_step := {coq_start(c['startup']['scheduler'])}.
+Definition master_start : list start_step := {coq_start(c['startup']['master'])}.
 """
 
 
